@@ -98,7 +98,7 @@ Definition out3 (impl spec known : string) : string := impl +++ "|" +++ spec +++
 Definition impl_run (bits : list bit) : string :=
   match run0 (start bits) with
   | RunOk i => let st := istate i in
-               "OK:" +++ show_items (stack st) +++ ";" +++ show_items (alt_stack st) +++ ";"
+               "OK:R;" +++ show_items (stack st) +++ ";" +++ show_items (alt_stack st) +++ ";"
                +++ show_exec (executed st) +++ ";" +++ dec_of_N (N.of_nat (codesep st))
   | RunErr _ => "ERR"
   | RunPanic => "PANIC"
@@ -117,8 +117,8 @@ Definition known_of (ts : list tok) : string :=
 
 (* (spec of interp.run, spec of interp.trace, known class) *)
 Definition analyse (bs : bytes) (canonical : bool) : string * string * string :=
-  let anyrun := "ERR~OK:*;*;*;*" in
-  let anytrace := "ERR~OK:*;*;*;*" in
+  let anyrun := "ERR~OK:R;*;*;*;*" in
+  let anytrace := "ERR~OK:F;*;*;*~OK:E;*;*;*" in
   if negb canonical then (anyrun, anytrace, "-")
   else
     match tokenize_spec bs with
@@ -129,7 +129,7 @@ Definition analyse (bs : bytes) (canonical : bool) : string * string * string :=
           match exec_script ts ([], []) with
           | Some (s, a) =>
               let r := show_items (rev s) +++ ";" +++ show_items (rev a) in
-              ("OK:" +++ r +++ ";*;*", "OK:F;" +++ r +++ ";*", known_of ts)
+              ("OK:R;" +++ r +++ ";*;*", "OK:F;" +++ r +++ ";*", known_of ts)
           | None => ("ERR", "OK:E;*;*;*", known_of ts)
           end
         else (anyrun, anytrace, "-")
